@@ -156,7 +156,12 @@ func (rt *runtime) isHaltPanic(caught interface{}) (same bool) {
 			same = true // values of an uncomparable type: there is only one halt in flight
 		}
 	}()
-	return caught == rt.haltValue
+	if caught == rt.haltValue {
+		return true
+	}
+	// A value that is not equal to itself (NaN, a struct holding NaN) can only be
+	// matched by that very property.
+	return caught != caught && rt.haltValue != rt.haltValue //nolint:gocritic,staticcheck
 }
 
 func (rt *runtime) tryCatchEvaluate(inner func() Value) (tryValue Value, isException bool) { //nolint:nonamedreturns
